@@ -13,7 +13,7 @@ use zvcore::explore::Verdict;
 use zvcore::refcodec as rc;
 use zvcore::world;
 
-const HISTS: [&str; 7] = ["bound-only", "one-accepted-peer", "two-peers-traffic", "connected-out", "pending-silent-handshake", "pending-handshake+accepted-peer", "stalled-peer-with-backlog"];
+const HISTS: [&str; 8] = ["bound-only", "one-accepted-peer", "two-peers-traffic", "connected-out", "pending-silent-handshake", "pending-handshake+accepted-peer", "stalled-peer-with-backlog", "bound-and-at-once"];
 
 #[derive(Clone, Debug)]
 struct Case {
@@ -151,7 +151,11 @@ async fn run_case(c: &Case) -> Vec<(String, String)> {
         }
     }
     // give accept tasks a moment to register the pending connections (monotone: they only get further)
-    tokio::time::sleep(Duration::from_millis(10)).await;
+    // (history 'bound-and-at-once': the action follows bind() with no suspension point in between - on the
+    // current-thread runtime nothing the bind spawned has been polled yet)
+    if c.hist != 7 {
+        tokio::time::sleep(Duration::from_millis(10)).await;
+    }
     if !viol.is_empty() {
         return viol;
     }
@@ -591,7 +595,9 @@ pub fn run(tier: Tier, replay: Option<String>) -> i32 {
                     continue;
                 }
                 for close in [true, false] {
-                    let flavours: Vec<usize> = if tier == Tier::Thorough { vec![2, 0] } else { vec![2] };
+                    // both runtime flavours: on the current-thread one nothing the socket spawned has run yet when the
+                    // application goes on right after a call returns (a task may be dropped before its first poll)
+                    let flavours: Vec<usize> = vec![2, 0];
                     for w in flavours {
                         cases.push(Case { ty, tr, hist, close, workers: w });
                     }
@@ -743,7 +749,7 @@ pub fn run(tier: Tier, replay: Option<String>) -> i32 {
     ck.cov("e4_cases_with_findings", found.len() as u64);
     ck.cov("e4_cases_skipped_after_violations", skipped.load(Ordering::Relaxed) as u64);
     ck.cov("exhaustive", skipped.load(Ordering::Relaxed) == 0);
-    ck.cov("explanation", format!("E4 (real tokio runtime, real sockets; OS schedules NOT enumerated, every expectation is a monotone condition awaited up to {} s): the complete grid 9 socket types x {{TCP v4, TCP v6, IPC}} x 7 history prefixes {:?} (the last one - a peer that has stopped reading, with data stuck on the socket's side of its connection - for the 7 types that send) x {{close, drop}}{} = {} cases: close() returns, fresh connects are refused (immediately after close() returns), the IPC socket file is gone, the endpoint can be bound again, every established raw peer and every client parked in the handshake sees end-of-stream, close() reports no error in these failure-free histories, the runtime's alive-task count returns to its baseline. In a child process with a lowered descriptor limit: PULL/REP/PUB x {{IPC, TCP v4}} x {{close, drop}} after an accept() that failed for lack of descriptors while a client connected (afterwards the same expectations). E3 (controlled executor, model checking): for each type the socket is dropped at each of {} points of a scenario with an established peer with traffic and a second peer at 3 handshake stages, under every schedule within the deviation bound from 2 policies: the drop returns (a synchronous wait on a lock owned by a suspended task of the only thread is reported as thread-blocked), every connection half is dropped and every library-spawned task has completed by quiescence.", e4::HORIZON.as_secs(), HISTS, if tier == Tier::Thorough { " x {multi-thread, current-thread} runtime" } else { "" }, n_cases, tier.pick(10, 14)));
+    ck.cov("explanation", format!("E4 (real tokio runtime, real sockets; OS schedules NOT enumerated, every expectation is a monotone condition awaited up to {} s): the complete grid 9 socket types x {{TCP v4, TCP v6, IPC}} x 8 history prefixes {:?} ('stalled-peer-with-backlog' - a peer that has stopped reading, with data stuck on the socket's side of its connection - for the 7 types that send; 'bound-and-at-once' - the action follows bind() without a suspension point) x {{close, drop}}{} = {} cases: close() returns, fresh connects are refused (immediately after close() returns), the IPC socket file is gone, the endpoint can be bound again, every established raw peer and every client parked in the handshake sees end-of-stream, close() reports no error in these failure-free histories, the runtime's alive-task count returns to its baseline. In a child process with a lowered descriptor limit: PULL/REP/PUB x {{IPC, TCP v4}} x {{close, drop}} after an accept() that failed for lack of descriptors while a client connected (afterwards the same expectations). E3 (controlled executor, model checking): for each type the socket is dropped at each of {} points of a scenario with an established peer with traffic and a second peer at 3 handshake stages, under every schedule within the deviation bound from 2 policies: the drop returns (a synchronous wait on a lock owned by a suspended task of the only thread is reported as thread-blocked), every connection half is dropped and every library-spawned task has completed by quiescence.", e4::HORIZON.as_secs(), HISTS, " x {multi-thread, current-thread} runtime", n_cases, tier.pick(10, 14)));
     ck.assume("E4 does not own OS scheduling or kernel socket buffers; its oracles are insensitive to them (monotone conditions, 5 s horizon where correct code needs milliseconds)");
     ck.assume("close()'s error reporting is checked only for failure-free closes");
     ck.conclude()
